@@ -167,6 +167,12 @@ def run_callsite(case, obs):
     else:
         conv = harness.convert(text, default_str_storage=255)
     obs["counters"]["helper_calls_interpreted"] = 1
+    if cb["status"] == "ok" and not conv["ok"]:
+        # the source runs to its end in Color BASIC: every call-site program of this workload is in the fragment the tool
+        # claims, so there must be an emitted program
+        obs["viols"].append({"sig": "C20/callsite/%s/valid-program-%s" % (case["what"], "refused" if conv.get("documented") else "internal-error"),
+                             "detail": {"source": text, "exception": conv.get("exc"), "message": conv.get("msg")}})
+        return obs
     if cb["status"] != "ok" or not conv["ok"]:
         obs["counters"]["callsite_dropped"] = 1
         obs["nontrivial"] = False
@@ -272,7 +278,10 @@ def cases(tier, seed):
             yield {"kind": "callsite", "what": "bundled-read-filter", "prog": prog, "bundle": True, "storage": storage, "cfg": cfg}
     # every numeric spelling, with and without an empty item in the program (the two READ paths)
     spellings = [["1", "E", "-", "5"], ["2", "E", "-", "7"], ["1.25", "E", "-", "5"], ["1", "E", "20"], [".000001"], ["123456.789"],
-                 ["-", "1", "E", "-", "10"], ["1", "E", "3"], ["0.00004"], ["65535"], ["1.5", "E", "+", "2"], ["-", ".5"], ["12."], ["007"]]
+                 ["-", "1", "E", "-", "10"], ["1", "E", "3"], ["0.00004"], ["65535"], ["1.5", "E", "+", "2"], ["-", ".5"], ["12."], ["007"],
+                 # the top of the range (Color BASIC and BASIC09 reals reach 1.70141183E+38) and the bottom
+                 ["1", "E", "38"], ["1.5", "E", "38"], ["-", "1.7", "E", "38"], ["17", "E", "37"], [".1", "E", "39"], ["9.99", "E", "37"],
+                 ["3", "E", "-", "38"], ["1", "E", "-", "37"]]
     # degenerate spellings Color BASIC reads as numbers all the same: a lone point is zero, a missing exponent is E0
     odd = [([".",], 0.0), (["+", "."], 0.0), (["-", "."], 0.0), ([".", "E", "3"], 0.0), (["5", "E"], 5.0), (["5", "E", "+"], 5.0), (["-", "5", "E", "-"], -5.0),
            (["+", "7"], 7.0), (["-", "-", "7"], 7.0), (["0"], 0.0), (["-", "0"], 0.0), (["00.50"], 0.5)]
